@@ -74,7 +74,7 @@ def cases(draw, max_n=70):
     if supply == "append" and draw(st.integers(0, 3)) == 0:
         lifespan = draw(st.sampled_from((600, 3600, 7200, 20000)))
     pre = n if supply == "constructor" else 0 if supply == "append" else draw(st.integers(0, n))
-    return {"members": members, "tf": hx_tf, "fill": fill, "ha": ha, "lifespan": lifespan, "stream": rows, "preload": pre, "chunks": draw(gs.chunking(n - pre))}
+    return {"decoy": draw(st.integers(0, 5)) == 0, "members": members, "tf": hx_tf, "fill": fill, "ha": ha, "lifespan": lifespan, "stream": rows, "preload": pre, "chunks": draw(gs.chunking(n - pre))}
 
 
 def _as_form(member):
@@ -206,13 +206,24 @@ def run_case(case) -> Result:
         v.kind = "settings-" + v.kind
         return Result([v], False, labels)
     late = [bool(m.get("late")) for m in case["members"]]
-    if all(late):
+    if case.get("decoy"):
+        late = [True] * len(late)  # a Hexital built without an indicator list, every member added afterwards
+        labels = sorted(set(labels + ["all_late_next_to_a_decoy"]))
+    elif all(late):
         late[0] = False
     try:
-        hx = Hexital("c08", mk_candles(rows[:pre]), [g for g, lt in zip(given, late) if not lt], **hx_kw)
+        first = [g for g, lt in zip(given, late) if not lt]
+        hx = Hexital("c08", mk_candles(rows[:pre]), first if first or not case.get("decoy") else None, **hx_kw)
         for g, lt in zip(given, late):
             if lt:  # registered after construction, through add_indicator
                 hx.add_indicator(g)
+        if case.get("decoy"):
+            # a second strategy for another instrument, built the same way with the same member names, lives next to it
+            decoy_rows = [[r[0]] + [x * 2 + 11 for x in r[1:5]] + [r[5]] for r in rows[: max(2, len(rows) // 2)]]
+            decoy = Hexital("decoy", mk_candles(decoy_rows), None, **hx_kw)
+            for m in case["members"]:
+                decoy.add_indicator(_as_form(m))
+            decoy.calculate()
     except Exception as exc:
         v = raises(exc, "hexital")
         forms = {m["form"] for m in case["members"]}
